@@ -45,6 +45,10 @@ func genShortQuery(rng *rand.Rand, g *chain.Gen, head uint64, npre int) query {
 	case x < 16:
 		q.From = uint64(rng.IntN(int(head) + 1))
 		q.To = q.From
+	case x < 17 && rng.IntN(2) == 0:
+		// from_block above the chain (a poller asking from "last seen + 1"): nothing is there
+		q.From = head + 1 + uint64(rng.IntN(3))
+		q.To = head + uint64(rng.IntN(5))
 	case x < 17:
 		q.From, q.To = 1+uint64(rng.IntN(int(head)+1)), 0
 		if q.From > 0 {
